@@ -456,6 +456,18 @@ parse_next_record_header:
     }
     else if (innerType == SSL_RECORD_TYPE_APPLICATION_DATA)
     {
+        /* Don't allow application data unless it arrived in a protected
+           record and the handshake is complete (or, on the server, as
+           early data while waiting for EndOfEarlyData). */
+        if (!DECRYPTING_RECORDS(ssl) ||
+            (ssl->hsState != SSL_HS_DONE &&
+             ssl->hsState != SSL_HS_TLS_1_3_WAIT_EOED))
+        {
+            ssl->err = SSL_ALERT_UNEXPECTED_MESSAGE;
+            psTraceIntInfo("Unexpected application data in state: %d\n",
+                    ssl->hsState);
+            goto encodeResponse;
+        }
         if (ssl->hsState == SSL_HS_TLS_1_3_WAIT_EOED)
         {
             if (ssl->sec.tls13ChosenPsk != NULL &&
